@@ -114,7 +114,10 @@ def check_crate(ctx, config, w, crate, dims, counts):
     if crate.name == "quantities":
         # the dimensionless analogue of the per-quantity rate operators (value x rate-per-value, value / rate) and
         # borrowed-operand variants of `rate * value`: dimensionally the same operations as the forms above
-        optional |= {("*", amt, "quantities::rate::Rate<$G0,%s>" % amt, "$G0"), ("/", amt, "quantities::rate::Rate<%s,$G0>" % amt, "$G0")}
+        for (op, rk) in (("*", "quantities::rate::Rate<$G0,%s>" % amt), ("/", "quantities::rate::Rate<%s,$G0>" % amt)):
+            for sv in (amt, "&" + amt):
+                for rv in (rk, "&" + rk):
+                    optional.add((op, sv, rv, "$G0"))
         import re
         proj = re.compile(r"^<&?quantities::rate::Rate<\w+, \w+> as core::ops::arith::Mul<&?\w+>>::Output$")
         for e in set(actual) - expected:
